@@ -149,3 +149,105 @@ for kind in ('hillpositive', 'hillnegative', 'proportionalhillpositive', 'propor
     posts = [('closed-form-%s' % m, 'prop_rate(self, 0, "%s", st, V) == %s' % (m, hill_oracle(kind, m)))
              for m in ('DET', 'VOL', 'STO', 'STOVOL')]
     model_contract(kind, list(NAMES) + ['P'], [([], ['P'], kind, pd)], posts)
+
+
+# ---------------------------------------------------------------------------------------------- C03: stoichiometry
+def seqs(names, maxlen):
+    out = [[]]
+    cur = [[]]
+    for _ in range(maxlen):
+        cur = [p + [n] for p in cur for n in names]
+        out.extend(cur)
+    return out
+
+
+def stoich_posts(species, reactants, products, dreact, dprod, r=0):
+    posts = []
+    for s in species:
+        u = products.count(s) - reactants.count(s)
+        d = dprod.count(s) - dreact.count(s)
+        posts.append(('U[%s,%d]' % (s, r), 'self.update_array[self.species2index["%s"], %d] == %d' % (s, r, u)))
+        posts.append(('D[%s,%d]' % (s, r), 'self.delay_update_array[self.species2index["%s"], %d] == %d' % (s, r, d)))
+    return posts
+
+
+def stoich_contract(variant, species, rx_specs, props=('C03',)):
+    """rx_specs: list of (reactants, products, delay_reactants, delay_products)"""
+    c = Contract('types', 'Model.__init__', list(props), variant=variant)
+    c.concrete_self = lambda ex, cls: ex.allocate(cls)
+
+    def setup(ex, fr):
+        k = ex.fresh('k', REAL)
+        fr.env['k'] = k
+        rx = []
+        for (re_, pr, dre, dpr) in rx_specs:
+            if dre is None and dpr is None:
+                rx.append((list(re_), list(pr), 'massaction', {'k': k}))
+            else:
+                rx.append((list(re_), list(pr), 'massaction', {'k': k}, 'fixed', list(dre or []), list(dpr or []), {'delay': tm.mk_real(1)}))
+        fr.env['species'] = list(species)
+        fr.env['reactions'] = rx
+        fr.env['parameters'] = []
+        fr.env['rules'] = []
+        fr.env['initial_condition_dict'] = {s: 0 for s in species}
+        fr.env['sbml_filename'] = None
+        fr.env['filename'] = None
+        fr.env['input_printout'] = False
+        fr.env['initialize_model'] = True
+    for nm in ('sbml_filename', 'filename', 'species', 'reactions', 'parameters', 'rules', 'initial_condition_dict',
+               'input_printout', 'initialize_model'):
+        c.hints[nm] = dict(value=None)
+    c.setup(setup)
+    c.requires('k > 0')
+    allsp = set(species)
+    for (re_, pr, dre, dpr) in rx_specs:
+        allsp |= set(re_) | set(pr) | set(dre or []) | set(dpr or [])
+    for r, (re_, pr, dre, dpr) in enumerate(rx_specs):
+        for (label, e) in stoich_posts(sorted(allsp), list(re_), list(pr), list(dre or []), list(dpr or []), r):
+            c.ensures(e, label=label)
+    c.ensures('self.update_array.shape[0] == %d and self.update_array.shape[1] == %d' % (len(allsp), len(rx_specs)), label='shape')
+    c.ensures('self.initialized == True', label='initialized')
+    c.opt(verify_only=True)
+    C.REGISTRY[c.key] = c
+    C.ORDER.append(c.key)
+
+
+_S2 = seqs(['A', 'B'], 3)
+for re_ in _S2:
+    for pr in _S2:
+        stoich_contract('stoich:%s>%s' % ('+'.join(re_) or '0', '+'.join(pr) or '0'), ['A', 'B'], [(re_, pr, None, None)])
+# delayed parts (separate accumulation loops in create_reaction): all delayed reactant/product sequences up to length 2 on
+# top of two immediate shapes, plus length-3/4 repeats
+for base in ((['A'], ['B']), ([], [])):
+    for dre in seqs(['A', 'B'], 2):
+        for dpr in seqs(['A', 'B'], 2):
+            stoich_contract('stoich-delay:%s>%s|%s>%s' % ('+'.join(base[0]) or '0', '+'.join(base[1]) or '0', '+'.join(dre) or '0', '+'.join(dpr) or '0'),
+                            ['A', 'B'], [(base[0], base[1], dre, dpr)])
+stoich_contract('stoich-delay:long', ['A', 'B', 'C'], [(['A', 'B', 'A', 'C'], ['C', 'C', 'A', 'B'], ['B', 'B', 'B'], ['C', 'A', 'C', 'C'])])
+# declaration order of species, species introduced only by reactions, several reactions (column independence)
+stoich_contract('stoich-order:BA', ['B', 'A'], [(['A', 'A', 'B'], ['B'], None, None)])
+stoich_contract('stoich-order:late', ['Z'], [(['A', 'Q'], ['Q', 'Q', 'Z'], ['Q'], ['A', 'A'])])
+stoich_contract('stoich-multi', ['C', 'A', 'B'], [(['A', 'B'], ['C'], None, None), (['C'], ['A', 'A', 'B'], ['A'], ['B', 'B']),
+                                                  ([], ['A'], None, None), (['B', 'B', 'B', 'A'], [], None, ['C'])])
+
+
+def unset_param_contract():
+    c = Contract('types', 'Model.__init__', ['C03'], variant='unset-parameter')
+    c.concrete_self = lambda ex, cls: ex.allocate(cls)
+
+    def setup(ex, fr):
+        fr.env.update(dict(species=['A', 'B'], reactions=[(['A'], ['B'], 'massaction', {'k': 'kf'})], parameters=[], rules=[],
+                           initial_condition_dict={'A': 1, 'B': 0}, sbml_filename=None, filename=None, input_printout=False,
+                           initialize_model=True))
+    for nm in ('sbml_filename', 'filename', 'species', 'reactions', 'parameters', 'rules', 'initial_condition_dict',
+               'input_printout', 'initialize_model'):
+        c.hints[nm] = dict(value=None)
+    c.setup(setup)
+    c.raises('ValueError')
+    c.ensures('False', label='initialisation-must-fail')
+    c.opt(verify_only=True)
+    C.REGISTRY[c.key] = c
+    C.ORDER.append(c.key)
+
+
+unset_param_contract()
